@@ -43,9 +43,11 @@ def gen_descs(ctx):
     clamp_max = bool(mono != 0 and omax is not None and rng.random() < 0.4)
     units = rng.choice([1, 1, 2, 3])
     iters = rng.choice([0, 1, 2, 3, 8, 12])
-    klass = rng.choice(["random", "random", "far", "wrongsign", "ties", "near"])
+    klass = rng.choice(["random", "random", "far", "wrongsign", "ties", "near", "feasible"])
     W = []
-    for r in range(nk):
+    if klass == "feasible":
+      W = feasible_kernel(rng, mono, lengths, omin, omax, clamp_min, clamp_max, units)
+    for r in range(nk if klass != "feasible" else 0):
       row = []
       for u in range(units):
         if klass == "far":
@@ -69,6 +71,26 @@ def gen_descs(ctx):
     hi = rng.choice([None, (lo if lo is not None else 0.0) + rng.choice([0.0, 1.0, 3.0])])
     out.append(dict(kind="naive", lo=lo, hi=hi, w=[tfimpl.dy(rng, -8, 8) for _ in range(rng.randint(1, 4))]))
   return out
+
+
+def feasible_kernel(rng, mono, lengths, omin, omax, clamp_min, clamp_max, units):
+  """A kernel meeting EVERY constraint of the configuration: linear in the input (so convex and concave), running in
+  the configured direction between two levels inside the bounds that hit the clamped ends exactly."""
+  lo = omin if omin is not None else (omax - 4.0 if omax is not None else -2.0)
+  hi = omax if omax is not None else lo + 4.0
+  W = [[0.0] * units for _ in range(len(lengths) + 1)]
+  total = float(sum(lengths))
+  for u in range(units):
+    a = lo if clamp_min else lo + rng.choice([0.0, 0.25, 0.5]) * (hi - lo)
+    b = hi if clamp_max else hi - rng.choice([0.0, 0.25, 0.5]) * (hi - lo)
+    if b < a:
+      a, b = b, a
+    if mono == 0 and rng.random() < 0.5 or mono == -1:
+      a, b = b, a       # runs downwards (first output b ... last output a of the original order)
+    W[0][u] = a
+    for r, ln in enumerate(lengths):
+      W[r + 1][u] = (b - a) * ln / total
+  return W
 
 
 def check_outputs(d, R):
@@ -117,6 +139,20 @@ def d3_class(case):
   d = case.desc
   return (d.get("kind") == "proj" and d["iters"] == 0 and (d["clamp_min"] or d["clamp_max"]) and
           all(c.startswith("clamp:") or c.startswith("idempotence") for c in (case.pred_fail or "").split("; ")))
+
+
+def focus(ctx, desc):
+  """Around a model/implementation disagreement: feasible kernels of the same configuration must stay unchanged."""
+  if desc.get("kind") != "proj":
+    return []
+  import random
+  rng = random.Random(ctx.seed + 17)
+  out = []
+  for _ in range(6):
+    W = feasible_kernel(rng, desc["mono"], desc["lengths"], desc["omin"], desc["omax"], desc["clamp_min"],
+                        desc["clamp_max"], desc["units"])
+    out.append(dict(desc, W=W, wclass="feasible", via_layer=False))
+  return out
 
 
 KNOWN_CLASSES = {"monotone_convex_bounds_not_repaired_by_squeeze": d2_class,
@@ -175,6 +211,10 @@ def eval_cases(ctx, descs):
         ch = np.abs(R2 - R).max()
         if ch > 1e-9 * max(1.0, np.abs(R).max()):
           fails.append("idempotence: a kernel meeting all constraints is moved by %r when projected again" % ch)
+    if d.get("wclass") == "feasible" and np.all(np.isfinite(R)) and not check_outputs(d, W):
+      ch = np.abs(R - W).max()
+      if ch > 1e-9 * max(1.0, np.abs(W).max()):
+        fails.append("feasible: a kernel satisfying every configured constraint is changed by %r" % ch)
     cfg = coq_cfg(d, omin_v, omax_v, cmin, cmax)
     coq = "CProj %s %s %s %s" % (cfg, cnat(d["units"]), cqm(d["W"]), cqm([[float(v) for v in r] for r in R]))
     moved = np.abs(R - W).max() > 1e-12
